@@ -243,8 +243,8 @@ def make_detector(name, N):
 
 def contracts(tier):
     if tier == "quick":
-        em = [("TS1", 3), ("TS2", 2), ("TS2", 16), ("TSEQ", 65536)]        # 16 / 65536: as instantiated by TSTransceiver
-        de = [("TS1", 1), ("TS2", 2), ("TS1", 8), ("TS2", 8), ("TSEQ", 32), ("INVTS1", 8)]
+        em = [("TS2", 2), ("TS2", 16), ("TSEQ", 65536)]                     # 16 / 65536: as instantiated by TSTransceiver
+        de = [("TS2", 2), ("TS1", 8), ("TS2", 8), ("TSEQ", 32)]             # 8 / 32: as instantiated by TSTransceiver
     else:
         em = [(s, b) for s in ("TS1", "TS2", "TSEQ", "INVTS1") for b in (1, 2, 3, 4, 7, 16, 255, 65536)]
         de = [(s, b) for s in ("TS1", "TS2", "TSEQ", "INVTS1") for b in (1, 2, 3, 4, 8, 31, 32, 255)]
